@@ -196,6 +196,7 @@ type z3Scenario struct {
 	CancelLate bool     `json:"cancel_late,omitempty"` // the client goes away exactly before some request or body piece (class cancel)
 	Prior      bool     `json:"prior,omitempty"`
 	WrongSize  bool     `json:"wrong_size,omitempty"` // the served manifest misstates the size of the first layer, in every attempt
+	WrongSizeFirst bool `json:"wrong_size_first,omitempty"` // ... in the first attempt only (a manifest the registry corrects afterwards)
 	Lost       bool     `json:"lost,omitempty"` // the same tag is in the store already but the file of its first layer is gone
 	Dup        bool     `json:"dup,omitempty"`         // the manifest names the first layer's digest twice (same bytes under two media types)
 	Second     bool     `json:"second,omitempty"`      // a second concurrent pull of a model sharing the layer
@@ -266,8 +267,20 @@ func z3Body(sc z3Scenario) func() {
 			b, _ := json.Marshal(m2)
 			srv.Manifests["lib/other:tag"] = b
 		}
+		rightManifest := srv.Manifests["lib/model:tag"]
 		for attempt := 1; attempt <= sc.Faulty+1; attempt++ {
 			clean := attempt == sc.Faulty+1
+			if sc.WrongSizeFirst {
+				// the registry's manifest misstates the size of the first layer during the first attempt only
+				srv.Manifests["lib/model:tag"] = rightManifest
+				if attempt == 1 {
+					wrong := served
+					wrong.Layers = append([]ztLayer{}, served.Layers...)
+					wrong.Layers[0].Size++
+					b, _ := json.Marshal(wrong)
+					srv.Manifests["lib/model:tag"] = b
+				}
+			}
 			srv.Faults = !clean && len(sc.Faults) > 0
 			srv.AuthChallenge = nil
 			if !clean {
@@ -413,6 +426,7 @@ func z3Scenarios(thorough bool) []z3Scenario {
 		{Name: "three-parts-pairs", Layers: []int{10}, Faults: []string{"500", "truncate"}, Faulty: 1},
 		{Name: "three-parts-cancel", Layers: []int{10}, Cancel: true, Faulty: 1},
 		{Name: "challenges", Layers: []int{3}, Challenge: adversarial, Faulty: 1},
+		{Name: "wrong-size-then-corrected", Layers: []int{10, 3}, WrongSizeFirst: true, Faults: []string{"flip", "500"}, Faulty: 1, Cap: 1},
 		{Name: "wrong-size-persists", Layers: []int{10, 3}, WrongSize: true, Faulty: 2, Cap: 1},
 		{Name: "repull-lost-layer", Layers: []int{10, 3}, Lost: true, Faults: []string{"500"}, Faulty: 1, Cap: 1},
 		{Name: "replace-tag", Layers: []int{10, 3}, Prior: true, Faults: []string{"500", "truncate", "flip"}, Faulty: 1, Cap: 1},
